@@ -21,8 +21,9 @@ import (
 )
 
 type input struct {
-	Timeout time.Duration `json:"nat_timeout"`
-	Ops     []udpx.Op     `json:"ops"`
+	Timeout    time.Duration `json:"nat_timeout"`
+	Ops        []udpx.Op     `json:"ops"`
+	SlowRemove time.Duration `json:"slow_remove,omitempty"` // every removal report takes this long: the teardown window is open for that time
 }
 
 type assoc struct {
@@ -79,6 +80,7 @@ func Oracle(tr *udpx.Trace) (string, []*engine.Finding) {
 				a.sends++
 				a.firstDNS = false
 			}
+			usedDying := a != nil && st.AliveBefore && len(st.NewSocks) == 0 && a.promised > 0 && now >= a.promised
 			if len(st.TargetRecv) == 1 {
 				dns := isDNSTarget(st.TargetRecv[0].Who)
 				port := strconv.Itoa(st.TargetRecv[0].FromUDP.Port)
@@ -96,7 +98,12 @@ func Oracle(tr *udpx.Trace) (string, []*engine.Finding) {
 				if dns {
 					p = now + 17*time.Second
 				}
-				if p > a.promised {
+				if usedDying {
+					// the deadline had passed without client traffic and the association is being
+					// torn down (the teardown takes time): the datagram went out through it, but
+					// nothing is promised for it. Had the server opened a new association instead,
+					// that one would carry the full promise.
+				} else if p > a.promised {
 					a.promised = p
 				}
 			}
@@ -199,7 +206,7 @@ func Oracle(tr *udpx.Trace) (string, []*engine.Finding) {
 		}
 		for p, last := range lastTraffic {
 			closedAt, closed := closedPorts[p]
-			if end > last+idle && (!closed || closedAt > end) && !reported[p] {
+			if end > last+idle+tr.Slack && (!closed || closedAt > end) && !reported[p] {
 				reported[p] = true
 				add("idle-association-not-reclaimed", "server socket port %s: the client has been silent since %v, it is now %v (timeout %v) and the association still holds its socket", p, last, end, T)
 			}
@@ -221,7 +228,7 @@ func Oracle(tr *udpx.Trace) (string, []*engine.Finding) {
 			if _, closed := closedPorts[port]; closed {
 				continue
 			}
-			if d > 0 && end > d && !containsAny(tr, port, end) {
+			if d > 0 && end > d+tr.Slack && !containsAny(tr, port, end) {
 				add("not-reclaimed", "socket port %s: deadline %v passed (now %v) without client traffic but the socket is still open", port, d, end)
 				delete(dl, port)
 			}
@@ -304,11 +311,43 @@ func menu(T time.Duration) []udpx.Op {
 	}
 }
 
+// windowInputs: histories around the teardown window of an association. With a removal report
+// that takes w = 2 ms the window [deadline, deadline+w] is open in virtual time; the offsets put a
+// datagram of the same client / a reply / another client's first datagram before, inside, at the
+// end of and after it, for the plain timeout and the 17 s DNS lifetime, followed by more traffic
+// and a long idle period (everything must be reclaimed, every association removed exactly once).
+func windowInputs() []input {
+	const w = 2 * time.Millisecond
+	var out []input
+	T := 10 * time.Second
+	type open struct {
+		op   udpx.Op
+		life time.Duration
+	}
+	opens := []open{{udpx.Op{K: "S", C: 0, Key: 0, T: 1, N: 30}, T}, {udpx.Op{K: "S", C: 0, Key: 0, T: 0, N: 30}, 17 * time.Second}}
+	for _, o := range opens {
+		for _, off := range []time.Duration{-time.Millisecond, 0, time.Millisecond, w, w + time.Millisecond} {
+			adv := udpx.Op{K: "A", D: o.life + off}
+			again := udpx.Op{K: "S", C: 0, Key: 0, T: 1, N: 31}
+			more := []udpx.Op{{K: "A", D: 5 * time.Millisecond}, {K: "S", C: 0, Key: 0, T: 1, N: 32}, {K: "R", C: 0, T: 1, N: 40}, {K: "A", D: T + 20*time.Millisecond}}
+			// the same client again
+			out = append(out, input{Timeout: T, SlowRemove: w, Ops: append([]udpx.Op{o.op, adv, again}, more...)})
+			// a reply, then the same client
+			out = append(out, input{Timeout: T, SlowRemove: w, Ops: append([]udpx.Op{o.op, adv, {K: "R", C: 0, T: 1, N: 41}, again}, more...)})
+			// another client opens, then the first client again
+			out = append(out, input{Timeout: T, SlowRemove: w, Ops: append([]udpx.Op{o.op, adv, {K: "S", C: 1, Key: 1, T: 1, N: 33}, again}, more...)})
+			// two datagrams of the same client inside the window
+			out = append(out, input{Timeout: T, SlowRemove: w, Ops: append([]udpx.Op{o.op, adv, again, {K: "S", C: 0, Key: 0, T: 2, N: 34}}, more...)})
+		}
+	}
+	return out
+}
+
 func scenario(in input) *engine.Scenario {
 	tr := &udpx.Trace{}
 	sc := &engine.Scenario{Name: "nat-life", Opt: vrt.Options{Horizon: udpx.Horizon}}
 	sc.Body = func() {
-		udpx.Run(udpx.Config{Keys: udpx.DefaultKeys(), NatTimeout: in.Timeout}, in.Ops, tr)
+		udpx.Run(udpx.Config{Keys: udpx.DefaultKeys(), NatTimeout: in.Timeout, SlowRemove: in.SlowRemove}, in.Ops, tr)
 	}
 	sc.Check = func(x *vrt.Exec) (string, bool, []*engine.Finding) {
 		fs := hk.Generic(x, hk.Opts{Leaks: true})
@@ -406,8 +445,19 @@ func init() {
 					ops[i] = m[c%int64(len(m))]
 					c /= int64(len(m))
 				}
-				in := input{T, ops}
+				in := input{Timeout: T, Ops: ops}
 				ctx.RunCase("nat-life", "Q", scenario(in), in, nil)
+			}
+		}
+		// teardown windows: the removal report takes 2 ms, and client datagrams, replies and a
+		// second client arrive inside, at the edges of and after the window
+		for i, in := range windowInputs() {
+			idx++
+			if ctx.Mine(idx) {
+				sc := scenario(in)
+				sc.Name = "nat-window"
+				ctx.RunCase("nat-window", "E", sc, in, nil)
+				_ = i
 			}
 		}
 		ctx.Res.Note("nat-life: all 16^%d sequences for NAT timeouts 300 s and 10 s", depth)
@@ -421,6 +471,9 @@ func init() {
 			return []*engine.Finding{{Sig: "BROKEN:bad-input", Msg: err.Error()}}
 		}
 		rp.Choices = nil
+		if rp.Unit == "nat-window" {
+			return engine.ReplayCase("nat-window", scenario(in), rp)
+		}
 		return engine.ReplayCase("nat-life", scenario(in), rp)
 	}
 }
